@@ -117,6 +117,18 @@ class Eval:
                 return None
             q = -(-a // c)
             return q if short == "div_ceil" else q * c
+        if short in ("from_be_bytes", "from_le_bytes") and len(args) == 1:
+            import lib
+            kb = lib._const_bytes_through(self.b, args[0])
+            if kb is not None:
+                return int.from_bytes(kb, "big" if short == "from_be_bytes" else "little")
+            return None
+        if short == "len" and len(args) == 1:
+            import lib
+            kb = lib._const_bytes_through(self.b, args[0])
+            if kb is not None:
+                return len(kb)
+            return None
         if short in PASS1 and len(args) >= 1:
             return self.val(args[0], depth)
         return None
